@@ -15,6 +15,9 @@ CONSTANTS
   ArgModes = {0, 1}
   WithFixtures = TRUE
   WithAttrs = FALSE
+  NestSet <- NestNone
+  TwoRuns = FALSE
+  OpsB = 0
 INVARIANT Visible
 INVARIANT Shadow
 INVARIANT DeleteLocal
